@@ -101,6 +101,8 @@ pub struct ExecState {
     pub call_start_traces: usize,
     pub call_start_visits: usize,
     pub clone_counter: u32,
+    /// some stored handle was unrecorded (or over-recorded) after some call
+    pub not_fully_recorded: bool,
 }
 
 impl Default for ExecState {
@@ -109,7 +111,7 @@ impl Default for ExecState {
             depth: 0, dtor_counter: 0, faults: Faults::default(), fired_panics: 0, fired_scripts: 0, panic_in_call: false, any_panic: false,
             pending_clone: None, clone_done: None, c14: None, record_dtors: false, dtors: vec![], call_digests: vec![], order_digest: 0,
             call_start_log: 0, c16_markers: false, collected_group_with_outside_survivor: false, nested_destroy_in_script: 0, nontrivial: 0,
-            shape_hash: 0, dtor_downgrade_p: 0, dtor_rng: crate::gen::Rng(0), dtor_auto: 0, inline_record: vec![], call_start_alive: 0, call_start_traces: 0, call_start_visits: 0, clone_counter: 0,
+            shape_hash: 0, dtor_downgrade_p: 0, dtor_rng: crate::gen::Rng(0), dtor_auto: 0, inline_record: vec![], call_start_alive: 0, call_start_traces: 0, call_start_visits: 0, clone_counter: 0, not_fully_recorded: false,
         }
     }
 }
@@ -1648,6 +1650,9 @@ fn after_call(panicked: bool) {
         check_memory();
     }
 
+    if !m(|m| m.fully_recorded()) {
+        x(|x| x.not_fully_recorded = true);
+    }
     x(|x| x.call_digests.push(cd));
 }
 
